@@ -254,7 +254,16 @@ fn op_hist14(ops: &str) -> String {
                         let (tx, rx) = tokio::sync::oneshot::channel();
                         let cmd = PeerCmd::RecvBitfield {
                             addr: addr_of(rest.parse().unwrap()),
-                            bitfield: Bitfield::from_vec(&vec![true, false, true, false]),
+                            // what the peer offers is not C14's business: every third address is a seeder (a complete
+                            // bitfield), every third offers nothing, the others something
+                            bitfield: {
+                                let k: usize = rest.parse().unwrap();
+                                Bitfield::from_vec(&match k % 3 {
+                                    0 => vec![true, true, true, true],
+                                    1 => vec![true, false, true, false],
+                                    _ => vec![false, false, false, false],
+                                })
+                            },
                             resp_ch: tx,
                         };
                         match s.verif_handle_peer_cmd(cmd).await {
